@@ -5,53 +5,18 @@
   from engine/gengine.go (GV.Generated.Orch, regenerated on every run) is an instance of the
   sorted-family template, and the template conforms to the reference semantics `spec`
   for every configuration: every rule set, every outcome assignment, both policies.
+  "One at a time": every stage of the plan is a singleton, and by `Sched.barrier` the events of
+  consecutive stages never overlap.  That the installed list itself is sorted is C08's invariant.
 -/
-import GV.Orch.FamSort
-import GV.Generated.Orch
+import GV.Orch.AllConform
+import GV.Orch.Sched
 namespace GV.Props.C04
 open GV.Orch GV.Generated.Orch
 
-def stdArm : Arm := ⟨.collect, .cont, .retErr, .cont⟩
-def collectArm : Arm := ⟨.collect, .cont, .collect, .cont⟩
-
-theorem stdArm_strict (b : Bool) : stdArm.Strict b := by
-  cases b <;> simp [Arm.Strict, Arm.Regular, Arm.act, stdArm]
-theorem collectArm_strict (b : Bool) : collectArm.Strict b := by
-  cases b <;> simp [Arm.Strict, Arm.Regular, Arm.act, collectArm]
-theorem stdArm_halts (b : Bool) : stdArm.halts b = !b := by cases b <;> rfl
-theorem collectArm_halts (b : Bool) : collectArm.halts b = false := by cases b <;> rfl
-
-/-! ### T1 obligations: the extracted skeletons are instances of the template -/
-
-theorem Execute_shape : Execute = sortT .sortRules false false stdArm false := rfl
-theorem ExecuteSelectedRules_shape : ExecuteSelectedRules = sortT .entities true true collectArm false := rfl
-theorem ExecuteSelectedRulesWithControl_shape :
-    ExecuteSelectedRulesWithControl = sortT .sortRules true true stdArm false := rfl
-
-/-! ### Conformance to the reference semantics, for every configuration -/
-
-theorem C04_Execute : Conforms Execute .Execute := by
-  intro cfg hp
-  rw [Execute_shape, sortT_obs cfg hp _ (by decide) _ _ _ _ (stdArm_strict _), expectObs_eq _ _ hp.flag]
-  simp only [spec, hp.rb, Bool.false_eq_true, ite_false, srcList, initSt, sortOrder, stdArm_halts, sortFamily]
-  cases h : cfg.sorted.isEmpty <;> simp [h]
-
+theorem C04_Execute : Conforms Execute .Execute := All.conf_Execute
+theorem C04_ExecuteSelectedRules : Conforms ExecuteSelectedRules .ExecuteSelectedRules := All.conf_ExecuteSelectedRules
 theorem C04_ExecuteSelectedRulesWithControl :
-    Conforms ExecuteSelectedRulesWithControl .ExecuteSelectedRulesWithControl := by
-  intro cfg hp
-  rw [ExecuteSelectedRulesWithControl_shape, sortT_obs cfg hp _ (by decide) _ _ _ _ (stdArm_strict _),
-    expectObs_eq _ _ hp.flag]
-  simp only [spec, hp.rb, Bool.false_eq_true, ite_false, srcList, initSt, sortOrder, stdArm_halts, sortFamily,
-    ite_true]
-  cases h : cfg.sorted.isEmpty <;> cases h2 : (selected cfg).isEmpty <;> simp [h, h2]
-
-theorem C04_ExecuteSelectedRules : Conforms ExecuteSelectedRules .ExecuteSelectedRules := by
-  intro cfg hp
-  rw [ExecuteSelectedRules_shape, sortT_obs cfg hp _ (by decide) _ _ _ _ (collectArm_strict _),
-    expectObs_eq _ _ hp.flag]
-  simp only [spec, hp.rb, Bool.false_eq_true, ite_false, srcList, initSt, sortOrder, collectArm_halts, sortFamily,
-    ite_true, Bool.not_true]
-  cases h : cfg.entities.isEmpty <;> cases h2 : (selected cfg).isEmpty <;> simp [h, h2]
+    Conforms ExecuteSelectedRulesWithControl .ExecuteSelectedRulesWithControl := All.conf_ExecuteSelectedRulesWithControl
 
 /-! ### The clauses of the property, read off the reference semantics -/
 
@@ -102,6 +67,19 @@ theorem trace_sorted (cfg : Cfg) (order : List Rule) (b s : Bool)
     (h : order.Pairwise (fun a b => a.sal ≥ b.sal)) :
     ((sortFamily cfg order b s).flatten).Pairwise (fun a b => a.sal ≥ b.sal) :=
   h.sublist (trace_prefix cfg order b s).sublist
+
+/-- The call reports an error exactly when an executed rule failed. -/
+theorem err_iff_failed (m : Method) (cfg : Cfg) (st : List (List Rule)) (h : spec m cfg = some st) :
+    (expect m cfg).err = st.flatten.any (fails cfg) := by
+  simp [expect, h]
+
+/-- One at a time: the plan of a sorted model consists of singleton stages. -/
+theorem stages_singletons (cfg : Cfg) (order : List Rule) (b s : Bool) :
+    ∀ st ∈ sortFamily cfg order b s, st.length = 1 := by
+  intro st h
+  simp [sortFamily, singletons] at h
+  obtain ⟨r, _, rfl⟩ := h
+  rfl
 
 /-- Non-vacuity: a concrete three-rule configuration satisfies `Pre`. -/
 example : Pre { sorted := [⟨"a", 3⟩, ⟨"b", 3⟩, ⟨"c", -1⟩], entities := [⟨"c", -1⟩, ⟨"a", 3⟩, ⟨"b", 3⟩],
